@@ -70,29 +70,30 @@ func (fr *frame) set(o types.Object, v Val) {
 }
 
 type Interp struct {
-	c       *Ctx
-	cfg     map[string][]known
-	atoms   map[string]*Atom
-	loops   []loopCtx
-	depth   int
-	steps   int
-	nObj    int
-	doms    *domains
-	callStk []*types.Func
-	assumed []string // conditions assumed false because they guard an error exit on environment quantities
-	mixes   int
-	hdrObj  *Obj
-	quiet   bool
-	traces  []*Trace
-	frames  []*frame
-	panicked bool
-	nLoop   int
-	envPreds bool
-	symRoot *Obj
+	c                  *Ctx
+	cfg                map[string][]known
+	atoms              map[string]*Atom
+	loops              []loopCtx
+	depth              int
+	steps              int
+	nObj               int
+	doms               *domains
+	callStk            []*types.Func
+	assumed            []string // conditions assumed false because they guard an error exit on environment quantities
+	mixes              int
+	hdrObj             *Obj
+	quiet              bool
+	traces             []*Trace
+	frames             []*frame
+	panicked           bool
+	nLoop              int
+	envPreds           bool
+	symRoot            *Obj
+	inHeader           bool
 	nWhile, whileDepth int
-	assumedEq map[string]*Expr // read atom -> expression it is known to equal on accepted inputs
-	pendingBody *SliceV
-	pendingStream *StreamV
+	assumedEq          map[string]*Expr // read atom -> expression it is known to equal on accepted inputs
+	pendingBody        *SliceV
+	pendingStream      *StreamV
 }
 
 type domains struct {
@@ -193,6 +194,11 @@ func (in *Interp) decide(v Val, what string) (val bool, ok bool) {
 		if segs[i].A.Env {
 			return in.decideEnv(e, what)
 		}
+	}
+	if comparesArithmetic(e) {
+		// a test on a computed quantity (a size, a sum of lengths) is not a discriminant of the layout:
+		// it is handled like a test on an environment quantity
+		return in.decideEnv(e, what)
 	}
 	for i := range segs {
 		s := &segs[i]
@@ -2094,4 +2100,29 @@ func (in *Interp) noteAssumedEq(c Val) {
 			}
 		}
 	}
+}
+
+// comparesArithmetic: some comparison in the condition has a sum / product / quotient as an operand.
+func comparesArithmetic(e *Expr) bool {
+	if e == nil || e.K != kOp {
+		return false
+	}
+	switch e.Op {
+	case "==", "!=", "<", "<=", ">", ">=":
+		for _, a := range e.Args {
+			if a.K == kOp {
+				switch a.Op {
+				case "+", "-", "*", "/", "%":
+					return true
+				}
+			}
+		}
+		return false
+	}
+	for _, a := range e.Args {
+		if comparesArithmetic(a) {
+			return true
+		}
+	}
+	return false
 }
